@@ -31,7 +31,7 @@ ASSUMPTIONS = [
     "recorded for 6 s is a hang witness; anything else that overruns the watchdog is inconclusive",
 ]
 SHARDS = {"quick": 12, "thorough": 14}
-FLOORS = {"quick": {"scripted_calls": 1500, "real_backend_calls": 60, "injected_yields": 2000, "sync_in_submit_completions": 200,
+FLOORS = {"quick": {"abandoned_calls_with_a_callback_pulling_from_a_slow_input": 24, "scripted_calls": 1500, "real_backend_calls": 60, "injected_yields": 2000, "sync_in_submit_completions": 200,
                     "distinct_completion_orders": 400, "second_calls_while_first_generator_holds_results": 40,
                     "auto_calls_with_scripted_durations": 100, "auto_calls_in_which_the_batch_size_shrank": 40, "distinct_auto_batch_size_sequences": 60},
           "thorough": {"scripted_calls": 30000, "real_backend_calls": 900, "injected_yields": 40000,
@@ -60,6 +60,8 @@ def shard_setup(tier):
 
 def cases(tier, seed):
     n = 180 if tier == "quick" else 3600
+    if os.environ.get("VERIF_C01_ONLY") == "abandon-slow":     # debugging aid
+        n = 0
     for i in range(n):
         yield dict(kind="scripted", i=i, runs=10)
     m = 24 if tier == "quick" else 300
@@ -67,6 +69,8 @@ def cases(tier, seed):
         yield dict(kind="real", i=i)
     for i in range(60 if tier == "quick" else 1200):
         yield dict(kind="reuse", i=i)
+    for i in range(36 if tier == "quick" else 600):
+        yield dict(kind="abandon-slow", i=i)
 
 
 def gen_config(rng):
@@ -82,9 +86,89 @@ def gen_config(rng):
     return dict(N=N, J=J, b=b, pd=pd, ra=rng.choice(["list", "generator"]))
 
 
+def run_abandon_slow(case, ctx):
+    """one Parallel object (threading backend, generator results) used twice: the first call is abandoned from the caller's
+    thread (close) at the moment a completion callback is pulling from a slow input, which delivers its items a seeded
+    delay later; the second call must return exactly the values of its own tasks, in order."""
+    from joblib import Parallel, delayed
+    rng = harness.rng_for(ctx.seed, ID, "abandon", case["i"])
+    J = rng.choice([2, 2, 3, 4])
+    bs = rng.choice([1, 1, 2])
+    pd = rng.choice([J * bs, J * bs, 2 * J * bs, bs])
+    delay = rng.choice([0.0, 0.01, 0.03, 0.08])
+    more = rng.choice([J * bs, 2 * J * bs + 1, 1])
+    n2 = rng.choice([1, 4, 2 * J + 1])
+    in_slice, release = threading.Event(), threading.Event()
+    desc = dict(n_jobs=J, batch_size=bs, pre_dispatch=pd, delay=delay, later_items=more, second_call_tasks=n2)
+    inj = _S.get("inj")
+    if inj is not None:
+        # this scenario owns its schedule: no pre-emption left over from the scripted histories of the same shard
+        inj.reseed(0, p_yield=0.0, p_sleep=0.0)
+        inj.p_instr, inj.instr_p = 0.0, {}
+        inj.hooks.clear()
+
+    def t(call, i):
+        return (call, i)
+
+    def slow_input():
+        for i in range(pd):
+            yield delayed(t)("call1", i)
+        in_slice.set()              # pulled by a completion callback from here on (the caller pulled the pre-dispatched items)
+        release.wait(20)
+        for i in range(pd, pd + more):
+            yield delayed(t)("call1", i)
+
+    def body(res):
+        p = Parallel(n_jobs=J, backend="threading", pre_dispatch=pd, batch_size=bs, return_as="generator")
+        out = p(slow_input())
+        if not in_slice.wait(20):
+            res["inconclusive"] = "no callback pulled from the input"
+            release.set()
+            out.close()
+            return
+        def releaser():
+            # scheduling only (no verdict depends on it): the input delivers its items `delay` after the caller's close() has
+            # marked the call as given up (or after 5 s at the latest)
+            t0 = time.monotonic()
+            while not getattr(p, "_aborting", False) and time.monotonic() - t0 < 5:
+                time.sleep(0.0005)
+            res["abort_seen"] = bool(getattr(p, "_aborting", False))
+            time.sleep(delay)
+            release.set()
+        threading.Thread(target=releaser, daemon=True).start()
+        out.close()
+        release.wait(20)
+        res["second"] = list(p(delayed(t)("call2", i) for i in range(n2)))
+
+    res = {}
+    th = threading.Thread(target=body, args=(res,), daemon=True)
+    th.start()
+    th.join(90)
+    ctx.evaluated()
+    release.set()
+    if th.is_alive():
+        ctx.inconclusive("abandon-slow-blocked", desc)
+        return
+    if "inconclusive" in res or "second" not in res:
+        ctx.inconclusive("abandon-slow:" + res.get("inconclusive", "ended without a result"), desc)
+        return
+    ctx.count("abandoned_calls_with_a_callback_pulling_from_a_slow_input")
+    if res.get("abort_seen"):
+        ctx.count("slow_inputs_released_after_the_call_was_marked_as_given_up")
+    ctx.sig(("abandon-slow", J, bs, pd, delay, more, n2))
+    want = [("call2", i) for i in range(n2)]
+    if res["second"] != want:
+        foreign = [v for v in res["second"] if v[0] != "call2"]
+        ctx.violation("reuse-after-abandoned-call:" + ("values-of-the-abandoned-call-returned" if foreign else "wrong-values"),
+                      f"the call that followed an abandoned call (closed while a callback pulled from a slow input, items {delay}s later) "
+                      f"returned {res['second']} instead of {want}", dict(desc, got=res["second"]))
+
+
 def run_case(case, ctx):
     if case["kind"] == "real":
         return run_real(case, ctx)
+    if case["kind"] == "abandon-slow":
+        return run_abandon_slow(case, ctx)
     if case["kind"] == "reuse":
         # two generator calls on one object, the second made while the first generator still holds results of its
         # (completed) run: each call must yield exactly its own values (scenario shared with C16)
